@@ -1,4 +1,5 @@
 import struct
+import asyncio
 import logging
 import typing
 from binascii import hexlify, unhexlify
@@ -854,7 +855,7 @@ class Transaction:
             if sign:
                 await tx.sign(funding_accounts)
 
-        except Exception as e:
+        except (Exception, asyncio.CancelledError) as e:  # CancelledError is not an Exception since python 3.8
             log.exception('Failed to create transaction:')
             await ledger.release_tx(tx)
             raise e
